@@ -341,6 +341,8 @@ func (pe *PolicyEngine) insertNamespace(ns *corev1.Namespace) error {
 		return err
 	}
 	pe.namespacesMap[nsObj.Name] = nsObj
+	// clear the cache on namespaces changes (cached results depend on the namespaces labels)
+	pe.cache.clear()
 	return nil
 }
 
@@ -517,6 +519,8 @@ func (pe *PolicyEngine) insertBaselineAdminNetworkPolicy(banp *apisv1a.BaselineA
 
 func (pe *PolicyEngine) deleteNamespace(ns *corev1.Namespace) error {
 	delete(pe.namespacesMap, ns.Name)
+	// clear the cache on namespaces changes
+	pe.cache.clear()
 	return nil
 }
 
